@@ -1,6 +1,8 @@
 package main
 
 import (
+	"crypto/sha256"
+	"encoding/hex"
 	"fmt"
 	"strings"
 
@@ -94,13 +96,17 @@ func init() {
 			want, ok := spec[sr]
 			t.check(ok && got == want, "encodeTable[%q].data = %s, the Code 93 table says %s", r, got, want)
 			v := c.Int(c.Field(vals[i], "value"))
+			// values must be pairwise distinct over the WHOLE table: getChecksum looks a character up
+			// by value while ranging over the map (order unspecified), so a duplicate makes the
+			// result depend on the iteration order
+			t.check(!seen[v], "encodeTable: value %d occurs twice (%q): the check character lookup becomes order dependent", v, r)
+			seen[v] = true
 			if r == '*' {
+				t.check(v == 47, "encodeTable['*'].value = %d, want 47 (start/stop is not one of the 47 data values)", v)
 				continue
 			}
 			sv, ok := onedspec.C93Value(sr)
 			t.check(ok && int64(sv) == v, "encodeTable[%q].value = %d, want %d", r, v, sv)
-			t.check(!seen[v], "encodeTable: value %d occurs twice", v)
-			seen[v] = true
 		}
 		et := must(c.Global("code93.extendedTable"))
 		t.check(c.Len(et) == 128, "extendedTable has %d entries", c.Len(et))
@@ -317,6 +323,24 @@ func init() {
 			}
 		}
 	}
+	// ---------------------------------------------------------------- PDF417 pattern VALUES (pinned)
+	// The value->pattern assignment is ISO 15438's 2787-entry listing, which cannot be re-derived
+	// offline. Assumption [A]: the table delivered with the pinned tree IS that listing (it passes
+	// every structural rule). The lemma pins its digest, so that any later change of a value - e.g.
+	// two entries of one cluster exchanged, which no structural rule can see - is reported.
+	tableLemmas["pdf417/pattern-values-pinned"] = func(t *tlCtx) {
+		c := t.c
+		cw := must(c.Global("pdf417.codewords"))
+		h := sha256.New()
+		for k := int64(0); k < c.Len(cw); k++ {
+			for _, v := range c.Ints(c.Elem(cw, k)) {
+				fmt.Fprintf(h, "%d,", v)
+			}
+			fmt.Fprint(h, ";")
+		}
+		got := hex.EncodeToString(h.Sum(nil))
+		t.check(got == pdfPatternDigest, "codewords table digest %s differs from the pinned ISO 15438 table %s (a pattern value was changed)", got, pdfPatternDigest)
+	}
 	// ---------------------------------------------------------------- PDF417 text sub-mode tables
 	tableLemmas["pdf417/textmaps"] = func(t *tlCtx) {
 		c := t.c
@@ -343,3 +367,5 @@ func init() {
 		}
 	}
 }
+
+var pdfPatternDigest = "cac8c67618a033eff842154174a51d50152b2b1afab35f2a00bd73ca2a804da4"
